@@ -95,6 +95,11 @@ where
         self
     }
 
+    /// Associates a public identifier with a handle
+    pub(crate) fn insert(&mut self, id: String, handle: HandleType) {
+        self.data.insert(id, handle);
+    }
+
     pub(crate) fn set_resolve_temp_ids(&mut self, value: bool) {
         self.resolve_temp_ids = value;
     }
